@@ -11,6 +11,7 @@ import (
 	"crypto/rsa"
 	"fmt"
 	"net"
+	"strings"
 	"testing"
 	"time"
 
@@ -63,6 +64,7 @@ type loginCase struct {
 	Key    int    `json:"key"`
 	Remote int    `json:"remote"`
 	Mode   string `json:"mode,omitempty"`
+	Secret int    `json:"secret,omitempty"` // index into g8Secrets (0 = g8Secret)
 }
 
 var (
@@ -77,6 +79,8 @@ var (
 	}
 	g8RemoteHosts = []string{"203.0.113.7", "2001:db8::8a2e:370:7334", "198.51.100.9"}
 	g8Secret      = "0123456789abcdef-forwarding-secret"
+	// the configured secret is used as its exact UTF-8 bytes (Paper: secret.getBytes(UTF_8)), no trimming or folding
+	g8Secrets = []string{g8Secret, " padded secret\t", "Gehe\u00efm\u2713-\u65e5\u672c", "UPPER-lower", "x"}
 	g8ID          = uuid.UUID{0x12, 0x34, 0x56, 0x78, 0x9a, 0xbc, 0x4d, 0xef, 0x80, 0x12, 0x34, 0x56, 0x78, 0x9a, 0xbc, 0xde}
 	g8Props       = []profile.Property{{Name: "textures", Value: "dmFsdWU=", Signature: "c2ln"}, {Name: "x", Value: "y"}}
 )
@@ -89,10 +93,23 @@ type loginRig struct {
 	sc       *serverConnection
 }
 
+// pluginAnswer is what a proxy plugin subscribed to ServerLoginPluginMessageEvent replies with: 64 bytes that
+// look like forwarding data (32-byte "MAC" + payload) but are not signed with the secret.
+var pluginAnswer = append(bytes.Repeat([]byte{0xAB}, 32), bytes.Repeat([]byte{0x01}, 32)...)
+
 func newLoginRig(mode config.ForwardingMode, protoIdx, keyIdx, remoteIdx int, backendProto proto.Protocol) *loginRig {
-	cfg := &config.Config{Forwarding: config.Forwarding{Mode: mode, VelocitySecret: g8Secret}}
-	p := &Proxy{cfg: cfg, event: event.Nop}
-	deps := &sessionHandlerDeps{proxy: p, configProvider: p, eventMgr: event.Nop}
+	return newLoginRigX(mode, protoIdx, keyIdx, remoteIdx, backendProto, g8Secret, false)
+}
+
+func newLoginRigX(mode config.ForwardingMode, protoIdx, keyIdx, remoteIdx int, backendProto proto.Protocol, secret string, plugin bool) *loginRig {
+	cfg := &config.Config{Forwarding: config.Forwarding{Mode: mode, VelocitySecret: secret, BungeeGuardSecret: "bg-token"}}
+	var mgr event.Manager = event.Nop
+	if plugin {
+		mgr = event.New()
+		event.Subscribe(mgr, 0, func(e *ServerLoginPluginMessageEvent) { e.Result().Response = pluginAnswer })
+	}
+	p := &Proxy{cfg: cfg, event: mgr}
+	deps := &sessionHandlerDeps{proxy: p, configProvider: p, eventMgr: mgr}
 	client := newG8Conn(g8Protos[protoIdx].Protocol, g8Remotes[remoteIdx])
 	player := &connectedPlayer{
 		MinecraftConn:      client,
@@ -123,7 +140,11 @@ func (c loginCase) String() string {
 // checkNegotiation: one forwarding request -> one response, parsed like Paper, version like Velocity.
 func checkNegotiation(r *vrt.R, c loginCase) {
 	r.Eval(1)
-	rig := newLoginRig(config.VelocityForwardingMode, c.Proto, c.Key, c.Remote, version.Minecraft_1_19_4.Protocol)
+	secret := g8Secrets[c.Secret]
+	rig := newLoginRigX(config.VelocityForwardingMode, c.Proto, c.Key, c.Remote, version.Minecraft_1_19_4.Protocol, secret, false)
+	if c.Secret != 0 {
+		r.Class("secret:non-default-bytes")
+	}
 	if p, v := vrt.Catch(func() {
 		rig.deliver(&packet.LoginPluginMessage{ID: 7, Channel: velocity.IpForwardingChannel, Data: c.Data})
 	}); p {
@@ -145,9 +166,9 @@ func checkNegotiation(r *vrt.R, c loginCase) {
 		r.Violation("login-request/response-shape", fmt.Sprintf("%s: backend got %#v", c, rig.backend.written[0]), c)
 		return
 	}
-	got, err := ref.Parse([]byte(g8Secret), resp.Data)
+	got, err := ref.Parse([]byte(secret), resp.Data)
 	if err != nil {
-		r.Violation("login-request/paper-rejects", fmt.Sprintf("%s: a Paper backend rejects the response: %v", c, err), c)
+		r.Violation("login-request/paper-rejects", fmt.Sprintf("%s: a Paper backend configured with secret %q rejects the response: %v", c, secret, err), c)
 		return
 	}
 	if got.Version != want {
@@ -192,10 +213,22 @@ type histScenario struct {
 	name    string
 	mode    config.ForwardingMode
 	backend proto.Protocol
+	plugin  bool // a proxy plugin answers login plugin messages the proxy does not handle itself
+	proto   int  // client protocol index (default 3 = 1.19.3)
+	key     int  // key index
 }
 
+var pluginAnswered int
+
+// channels that are NOT the forwarding channel, however similar
+var foreignChannels = []string{"other:channel", "velocity:player_info2", "velocity:player_inf", "VELOCITY:PLAYER_INFO", "velocity:player_info ", "minecraft:velocity:player_info", "velocity:", "bungeecord:main", "fml:handshake"}
+
 func runLoginHistory(sc histScenario, h []lop) bfs.Outcome {
-	rig := newLoginRig(sc.mode, 3, 0, 0, sc.backend)
+	pi := sc.proto
+	if pi == 0 {
+		pi = 3
+	}
+	rig := newLoginRigX(sc.mode, pi, sc.key, 0, sc.backend, g8Secret, sc.plugin)
 	forwarded := false
 	for i, op := range h {
 		before := len(rig.backend.written)
@@ -207,13 +240,46 @@ func runLoginHistory(sc histScenario, h []lop) bfs.Outcome {
 			pk = &packet.LoginPluginMessage{ID: i, Channel: velocity.IpForwardingChannel}
 		case "OTHER":
 			pk = &packet.LoginPluginMessage{ID: i, Channel: "other:channel", Data: []byte{1}}
+		case "COMPRESS":
+			pk = &packet.SetCompression{Threshold: 256}
 		case "SUCCESS":
 			pk = &packet.ServerLoginSuccess{UUID: g8ID, Username: "Steve"}
 		}
-		if p, v := vrt.Catch(func() { rig.deliver(pk) }); p {
-			return bfs.Outcome{FailKey: op.K + "/panic", FailDesc: fmt.Sprintf("op %d %s panicked: %v", i, op, v)}
+		var newp []proto.Packet
+		if pk != nil {
+			if p, v := vrt.Catch(func() { rig.deliver(pk) }); p {
+				return bfs.Outcome{FailKey: op.K + "/panic", FailDesc: fmt.Sprintf("op %d %s panicked: %v", i, op, v)}
+			}
+			newp = rig.backend.written[before:]
 		}
-		newp := rig.backend.written[before:]
+		if strings.HasPrefix(op.K, "OTHER:") { // a foreign channel by name
+			pk = &packet.LoginPluginMessage{ID: i, Channel: op.K[6:], Data: []byte{4}}
+			if p, v := vrt.Catch(func() { rig.deliver(pk) }); p {
+				return bfs.Outcome{FailKey: "OTHER/panic", FailDesc: fmt.Sprintf("op %d %s panicked: %v", i, op, v)}
+			}
+			newp = rig.backend.written[before:]
+		}
+		switch {
+		case op.K == "COMPRESS":
+			if len(newp) != 0 {
+				return bfs.Outcome{FailKey: "COMPRESS/answered", FailDesc: fmt.Sprintf("op %d: %v", i, newp)}
+			}
+			continue
+		case strings.HasPrefix(op.K, "OTHER"):
+			for _, p := range newp {
+				if resp, isResp := p.(*packet.LoginPluginResponse); isResp && len(resp.Data) >= 32 {
+					if _, err := ref.Verify([]byte(g8Secret), resp.Data); err == nil {
+						return bfs.Outcome{FailKey: "OTHER/forwarding-data-on-foreign-channel", FailDesc: fmt.Sprintf("op %d: signed forwarding data sent in answer to channel %q", i, pk.(*packet.LoginPluginMessage).Channel)}
+					}
+				}
+			}
+			if sc.plugin && len(newp) == 1 {
+				if resp, isResp := newp[0].(*packet.LoginPluginResponse); isResp && resp.Success && bytes.Equal(resp.Data, pluginAnswer) {
+					pluginAnswered++ // vacuity guard only: the plugin path was really taken
+				}
+			}
+			continue
+		}
 		switch op.K {
 		case "REQ", "REQ0":
 			if sc.mode == config.VelocityForwardingMode {
@@ -277,6 +343,11 @@ func TestVerif(t *testing.T) {
 			{"login-history/velocity/backend-1.19.4", config.VelocityForwardingMode, version.Minecraft_1_19_4.Protocol},
 			{"login-history/velocity/backend-1.20.2", config.VelocityForwardingMode, version.Minecraft_1_20_2.Protocol},
 			{"login-history/none/backend-1.19.4", config.NoneForwardingMode, version.Minecraft_1_19_4.Protocol},
+			{name: "login-history/legacy/backend-1.19.4", mode: config.LegacyForwardingMode, backend: version.Minecraft_1_19_4.Protocol},
+			{name: "login-history/bungeeguard/backend-1.20.2", mode: config.BungeeGuardForwardingMode, backend: version.Minecraft_1_20_2.Protocol},
+			{name: "login-history/velocity+plugin/backend-1.19.4", mode: config.VelocityForwardingMode, backend: version.Minecraft_1_19_4.Protocol, plugin: true},
+			{name: "login-history/none+plugin/backend-1.20.2", mode: config.NoneForwardingMode, backend: version.Minecraft_1_20_2.Protocol, plugin: true},
+			{name: "login-history/velocity/keyed-1.19.1-client", mode: config.VelocityForwardingMode, backend: version.Minecraft_1_19_4.Protocol, proto: 2, key: 2},
 		}
 		if r.ReplayInto(&rc) {
 			if rc.Scenario != "" {
@@ -309,12 +380,35 @@ func TestVerif(t *testing.T) {
 							continue
 						}
 						checkNegotiation(r, loginCase{Data: d, Proto: pi, Key: ki, Remote: ri})
+						if ri == 0 { // the configured secret, one-field deviation
+							for si := 1; si < len(g8Secrets); si++ {
+								if r.Thorough() || len(d) != 1 || d[0] < 8 || d[0] >= 0xF8 {
+									checkNegotiation(r, loginCase{Data: d, Proto: pi, Key: ki, Remote: ri, Secret: si})
+								}
+							}
+						}
 					}
 				}
 			}
 		}
 		if r.Shard == 0 {
-			ops := []lop{{"REQ"}, {"REQ0"}, {"OTHER"}, {"SUCCESS"}}
+			ops := []lop{{"REQ"}, {"REQ0"}, {"OTHER"}, {"COMPRESS"}, {"SUCCESS"}}
+			// every look-alike channel, alone and after/before a real request, then login success
+			for _, sc := range hist {
+				for _, ch := range foreignChannels {
+					for _, h := range [][]lop{{{"OTHER:" + ch}, {"SUCCESS"}}, {{"OTHER:" + ch}, {"OTHER:" + ch}, {"SUCCESS"}}, {{"REQ"}, {"OTHER:" + ch}, {"SUCCESS"}}, {{"OTHER:" + ch}, {"REQ"}, {"SUCCESS"}}} {
+						r.Eval(1)
+						r.Class("foreign-channel-history")
+						if out := runLoginHistory(sc, h); out.FailKey != "" {
+							r.Violation(sc.name+"/"+out.FailKey, fmt.Sprintf("history %v: %s", h, out.FailDesc), bfs.ReplayData[lop]{Scenario: sc.name, History: h})
+						}
+					}
+				}
+			}
+			if pluginAnswered == 0 {
+				r.NotExhaustive("the plugin-subscriber scenarios never saw the plugin's answer relayed: the event path was not exercised")
+			}
+			r.ClassN("plugin-answered-foreign-channel", pluginAnswered)
 			for _, sc := range hist {
 				sc := sc
 				depth := 4
